@@ -288,6 +288,97 @@ def check_tlwe_op(chk, v, name, spec):
     chk.vcount(vn, "R4.tlwe_operations")
 
 
+def check_trivial(chk, v, rule="R8"):
+    """tLweNoiselessTrivial(result, mu) / tLweNoiselessTrivialT(result, mu): afterwards every coefficient of the k mask components is
+    0 and b is mu (the polynomial, resp. the constant polynomial mu) -- so the phase is exactly mu -- whatever the sample held
+    before.  The functions are interpreted with polynomial abstract values (sa/concrete.PolyState) for k in 1..3 and N in
+    1..10, 13, 16, 17 with the previous contents of the sample and the coefficients of mu as indeterminates; the library's
+    clear / copy primitives are inlined (memset / memcpy / std::copy as the element loops they stand for, a byte count that is
+    not a multiple of the element size clears only the whole elements it covers).  An unknown call that receives part of the sample
+    makes the rule undecided."""
+    from sa import concrete, symexec
+    vn = v.name
+    for name in ("tLweNoiselessTrivial", "tLweNoiselessTrivialT"):
+        f = v.fn(name, required=False)
+        if f is None:
+            continue
+        res, mu, par = [p["n"] for p in f.params]
+        is_poly = "TorusPolynomial" in f.params[1]["t"]
+        K, Nn = P(par, "k"), P(par, "N")
+        effs = symexec.run_function(v, f, hooks=summ.InlineLib())[0]
+        # a polynomial's own N field is the ring degree N of the parameters (established by the constructors, C16)
+        effs = concrete.map_terms(effs, lambda t_: sym.rewrite(t_, {st_: Nn for st_ in sym.subterms(t_) if st_[0] == "fld" and st_[2] == "N" and st_ != Nn}))
+        key = "%s leaves the sample (0, ..., 0, mu) whatever it held before" % name
+        wit = None
+        ncase = 0
+        at = lambda t: ("init", concrete.lvalue_location(t, {}))
+        for kv in (1, 2, 3):
+            def alias(loc, kv=kv):
+                r_, path = loc
+                if len(path) >= 3 and path[0] == 0 and path[1] == "b" and path[2] == 0:
+                    return r_, (0, "a", kv) + tuple(path[3:])
+                return loc
+            for nv in (1, 2, 3, 4, 5, 6, 7, 8, 9, 10, 13, 16, 17):
+                if wit:
+                    break
+                st = concrete.PolyState(alias=alias)
+
+                def h(kind, xx, env):
+                    if kind in ("local", "store"):
+                        st.assign(xx, env)
+                    elif kind == "cond":
+                        c_ = xx["cond"]
+                        neg = False
+                        while c_[0] == "un" and c_[1] == "!":
+                            c_, neg = c_[2], not neg
+                        if c_[0] == "op" and c_[1] in ("!=", "==") and sym.root_of(c_[2]) is not None and sym.root_of(c_[3]) is not None \
+                                and sym.root_of(c_[2]) != sym.root_of(c_[3]) and sym.root_of(c_[2])[0] == "sym" and sym.root_of(c_[3])[0] == "sym":
+                            r_ = c_[1] == "!="            # the output sample and the message are different objects (the API's contract)
+                            return (not r_) if neg else r_
+                        return None
+                    elif kind in ("call", "asm", "unknown"):
+                        if kind == "call" and xx.get("noreturn"):
+                            return None
+                        raise concrete.NotEvaluable("%s at line %s" % (xx.get("name") or kind, xx.get("l")))
+                    return None
+                env = {Nn: nv, K: kv}
+                for q_ in range(kv + 1):
+                    env[sym.fld(sym.idx(P(res, "a"), I(q_)), "N")] = nv
+                env[sym.arrow(P(res, "b"), "N")] = nv
+                env[P(res, "k")] = kv
+                if is_poly:
+                    env[P(mu, "N")] = nv
+                try:
+                    concrete.interpret(effs, env, h, on_segment=st.segment)
+                except concrete.NotEvaluable as e:
+                    chk.broken("%s: by interpretation with k = %d, N = %d: %s" % (name, kv, nv, e))
+                ncase += 1
+                for c_ in range(kv + 1):
+                    for j_ in range(nv):
+                        got = st.read(concrete.lvalue_location(sym.idx(sym.fld(sym.idx(P(res, "a"), I(c_)), "coefsT"), I(j_)), {}))
+                        if c_ < kv:
+                            want = {}
+                        elif is_poly:
+                            want = {(at(sym.idx(P(mu, "coefsT"), I(j_))),): 1}
+                        else:
+                            want = {(sym.sym(mu),): 1} if j_ == 0 else {}
+                        # (the constant read through its own address, &mu, is the constant)
+                        is_mu = lambda a_: a_ == sym.sym(mu) or (isinstance(a_, tuple) and len(a_) == 2 and a_[0] == "init" and a_[1][1] in ((), (0,)) and
+                                                              isinstance(a_[1][0], tuple) and a_[1][0][0] in ("sym", "var") and a_[1][0][1] == mu)
+                        norm = lambda d_: {tuple(sym.sym(mu) if is_mu(a_) else a_ for a_ in m_): c2 % (1 << 32) for m_, c2 in d_.items() if c2 % (1 << 32)}
+                        if got is None or norm(got) != norm(want):
+                            what = "not a number (only part of it is cleared)" if got is None else concrete.show_poly(got, 3) or "0"
+                            wit = "with k = %d, N = %d: coefficient %d of %s is %s afterwards, expected %s" % (
+                                kv, nv, j_, ("mask component %d" % c_) if c_ < kv else "b", what,
+                                "0" if not want else concrete.show_poly(want, 3))
+                            break
+                    if wit:
+                        break
+        chk.require(wit is None, rule, key, where=f.where, ok="interpreted for k in 1..3 and 13 ring degrees: every coefficient of the "
+                    "k+1 components is determined (mask 0, b = mu)", bad=wit or "", variant=vn)
+        chk.vcount(vn, "%s.trivial_constructors" % rule)
+
+
 def extraction_by_interpretation(chk, v, f, why):
     """-> None or a witness (k, N, index, position)"""
     from sa import concrete, symexec
@@ -489,6 +580,7 @@ def run(chk):
         chk.analysed["variants"] = chk.analysed.get("variants", 0) + 1
         for name, spec in LWE_OPS.items():
             check_lwe_op(chk, v, name, spec)
+        check_trivial(chk, v)
         for name, spec in TLWE_OPS.items():
             check_tlwe_op(chk, v, name, spec)
         check_extraction(chk, v)
